@@ -160,6 +160,20 @@ def explore(ck: Check, n: int) -> None:
             fake_root = Node(77, "WORK-ITEM", pic="X(2)", width=2)
             fake_root.unique = "WORK-ITEM"
             one_copybook(ck, [fake_root] + roots, inject, Style(), reqs, impl, inputs, "starts-with-77")
+    # a data name that begins with SYNC (the one reserved-word prefix the existing tests pin): known finding D39
+    w = Node(1, "R", children=[Node(5, "SYNC-FLAG", pic="X", width=1), Node(5, "B", pic="X", width=1)])
+    for n in preorder(w):
+        n.unique = n.name or ""
+    text = render([w], Style())
+    ck.case("D39-shape", feature="known-shape/name-begins-with-SYNC")
+    ck.oracle_evaluations += 1
+    try:
+        from stingray.cobol_parser import schema_iter
+        doc = next(iter(schema_iter(io.StringIO(text))))
+        if "SYNC-FLAG" not in doc["properties"]:
+            ck.fail("name-begins-with-SYNC", f"entry SYNC-FLAG appears as {list(doc['properties'])[0]!r}", {"copybook": text})
+    except BaseException as ex:  # noqa: BLE001
+        ck.fail("name-begins-with-SYNC", f"copybook with a name beginning with SYNC ends in {type(ex).__name__}", {"copybook": text})
     model = ck.driver.run(reqs)
     ck.compare_streams("structure()/schema_iter() vs Copybook.buildForest/records", inputs, impl, model)
 
